@@ -571,7 +571,23 @@ func (ex *Exec) convertVal(from, to types.Type, v Val, st *State) Val {
 	if len(leaves(from)) == len(leaves(to)) {
 		// pointer/unsafe conversions are not supported; same-shape conversions are value-preserving
 		if _, ok := to.Underlying().(*types.Basic); ok && to.Underlying().(*types.Basic).Kind() == types.UnsafePointer {
-			panic(unsupported("unsafe.Pointer conversion"))
+			// the pointer escapes the type system: what it denotes from here on is opaque (a fresh, otherwise unknown
+			// reference). Sound as long as verified code only hands it to external calls, which is checked below.
+			ex.used["A-UNSAFE: a pointer converted to unsafe.Pointer is an opaque reference from then on (only passed to system calls)"] = true
+			return Val{T: to, L: []string{ex.alloc(st)}}
+		}
+		if fbb, ok := from.Underlying().(*types.Basic); ok && fbb.Kind() == types.UnsafePointer {
+			if pt, isPtr := to.Underlying().(*types.Pointer); isPtr {
+				// back from unsafe.Pointer: a fresh object of the target type with unconstrained contents
+				ex.used["A-UNSAFE: a pointer obtained from unsafe.Pointer denotes a fresh object with unconstrained contents"] = true
+				obj := ex.allocObject(st, pt.Elem())
+				fv := ex.freshVal(pt.Elem(), st, "unsafeobj")
+				if _, isArr := pt.Elem().Underlying().(*types.Array); !isArr {
+					ex.store(st, obj, fv)
+				}
+				obj.T = to
+				return obj
+			}
 		}
 		return Val{T: to, L: v.L, P: v.P, F: v.F}
 	}
